@@ -338,12 +338,13 @@ def gReadStep2 (G : Grp) (st : GSt) : List Nat → Inbox → List Int → List I
       gReadStep2 G st rest I1 (A.set j a) (B.set j b) (T.set j (getI row 2)) (Tp.set j (getI row 3))
         (if c || bad then cm ++ [j] else cm)
 
-/-- step 4: the `d_j, d'_j` of the parties of QUAL, checked against `C_j0` of `d_rvss` -/
+/-- step 4: the `d_j, d'_j` of the parties of QUAL that are also qualified in `d_rvss`, checked against
+    `C_j0` of `d_rvss` -/
 def gReadStep4 (G : Grp) (st : GSt) : List Nat → Inbox → List Int → List Int → List Nat →
     Except Err (Inbox × List Int × List Int × List Nat)
   | [], I, di, dpi, cm => .ok (I, di, dpi, cm)
   | j :: rest, I, di, dpi, cm =>
-    if j = st.i ∨ !st.qual.contains j then gReadStep4 G st rest I di dpi cm
+    if j = st.i ∨ !st.qual.contains j ∨ !st.dr.qual.contains j then gReadStep4 G st rest I di dpi cm
     else
       match I.popB none j with
       | (none, I1) => gReadStep4 G st rest I1 di dpi (cm ++ [j])
@@ -453,11 +454,11 @@ def genRound (G : Grp) (weak : List Nat) (strong : List Int) (round : Nat) (st :
     else
       let dme := if st.sfb && rb st.r 3 then dr.z + 1 else dr.z
       let dpme := if st.sfb && rb st.r 4 then dr.zp + 1 else dr.zp
-      -- parties disqualified in this sharing leave QUAL
+      -- a party disqualified in this sharing stays in QUAL (its shares are part of every x_i, repair
+      -- e38c94b): the complaint makes step 7 reconstruct its z_j
       let gone := st.qual.filter (fun j => !dr.qual.contains j)
-      let qual := st.qual.filter (fun j => dr.qual.contains j)
-      let st2 := { st1 with di := st.di.set st.i dme, dpi := st.dpi.set st.i dpme, qual := qual, compl := st.compl ++ gone }
-      let ops : List Op := if qual.contains st.i then [Op.bc none dme, Op.bc none dpme] else []
+      let st2 := { st1 with di := st.di.set st.i dme, dpi := st.dpi.set st.i dpme, compl := st.compl ++ gone }
+      let ops : List Op := if st.qual.contains st.i then [Op.bc none dme, Op.bc none dpme] else []
       pure (.go st2 I1 ops)
   else if round < 8 + t ∨ round = 8 then
     -- round 8: read step 4, enter `d_rvss->Reconstruct`; rounds 9 … 8+t: its further rounds
@@ -548,6 +549,9 @@ structure RSt where
   xp : Int
   C : List (List Int)       -- `x_rvss->C_ik`, indexed by key generation index
   qual : List Nat           -- key generation indices
+  zq : List Nat := []       -- the dealers of the sharing of zero that are admitted (positions in `sub`)
+  zx : Int := 0             -- the party's share of the admitted sharings (`x_zvss->x_i` after the adjustment)
+  zxp : Int := 0
 
 def RSt.env (G : Grp) (st : RSt) : Env := ⟨G, st.sub.length, st.t, st.k, st.sub⟩
 
@@ -579,16 +583,22 @@ def refRound (G : Grp) (weak : List Nat) (strong : List Int) (round : Nat) (st :
     if zr.ret != some true then pure (.done st1 I1 false)
     else if st.sfb && rb st.r 0 then pure (.done st1 I1 false)
     else
-      let x := (st.x + zr.x + (if st.sfb && rb st.r 1 then 1 else 0)) % G.q
-      let xp := (st.xp + zr.xp + (if st.sfb && rb st.r 2 then 1 else 0)) % G.q
+      -- a dealer that is not in the current QUAL takes no part in the refresh (repair a457dd1): its share
+      -- is subtracted again (`mpz_sub`, no reduction) and it is erased from the QUAL of the sharing
+      let drop := zr.qual.filter (fun j => !st.qual.contains (getN st.sub j))
+      let zq := zr.qual.filter (fun j => st.qual.contains (getN st.sub j))
+      let zx := drop.foldl (fun (acc : Int) j => acc - getI zr.s j) zr.x
+      let zxp := drop.foldl (fun (acc : Int) j => acc - getI zr.sp j) zr.xp
+      let x := (st.x + zx + (if st.sfb && rb st.r 1 then 1 else 0)) % G.q
+      let xp := (st.xp + zxp + (if st.sfb && rb st.r 2 then 1 else 0)) % G.q
       let bump : Int := if st.sfb && rb st.r 3 then 1 else 0
-      let C := zr.qual.foldl (fun (C : List (List Int)) (j : Nat) =>
+      let C := zq.foldl (fun (C : List (List Int)) (j : Nat) =>
           let it := getN st.sub j
           let row := (List.range (t + 1)).map (fun k =>
             (getI (getRow C it) k * getI (getRow zr.C j) k + bump) % G.p)
           C.set it row) st.C
-      let qual := zr.qual.map (fun j => getN st.sub j)
-      pure (.done { st1 with x := x, xp := xp, C := C, qual := qual } I1 true)
+      let qual := zq.map (fun j => getN st.sub j)
+      pure (.done { st1 with x := x, xp := xp, C := C, qual := qual, zq := zq, zx := zx, zxp := zxp } I1 true)
 
 /-- what a party holds when `Refresh` is called -/
 structure RefIn where
